@@ -12,6 +12,39 @@ def run(ctx):
     cases = vsuite.make_cases(ctx, n, depth, zoo_rate=0.15, perturb=ctx.scale(10, 16))
     for c in cases:
         vsuite.observe(c)
+    # the other spellings of the verdict: schema == value, schema != value (and reflected) and validate_or_fail say
+    # the same as validate(schema, value).get_errors() == []
+    from d42 import validate_or_fail
+    from d42.validation import ValidationException
+    spellings = 0
+    for c in cases:
+        if c.obs_kind != "ok" or c.mode != "Plain":
+            continue
+        verdict = not c.errors
+        obs = {}
+        for name, f in (("S == v", lambda: c.schema == c.value), ("S != v", lambda: not (c.schema != c.value)),
+                        ("v == S", lambda: c.value == c.schema), ("v != S", lambda: not (c.value != c.schema))):
+            try:
+                obs[name] = bool(f())
+            except Exception as e:  # noqa
+                obs[name] = "raised " + type(e).__name__
+        try:
+            obs["validate_or_fail"] = validate_or_fail(c.schema, c.value) is True
+        except ValidationException:
+            obs["validate_or_fail"] = False
+        except Exception as e:  # noqa
+            obs["validate_or_fail"] = "raised " + type(e).__name__
+        spellings += 1
+        import d42.declaration
+        reflected_defined = not isinstance(c.value, d42.declaration.Schema)
+        for name, got in obs.items():
+            if name.startswith("v ") and not reflected_defined:
+                continue
+            if got != verdict and not isinstance(got, str):
+                rp = c.replay_dict()
+                rp.update(observed=f"{name} says {got}", expected=f"{verdict} (validate reports {len(c.errors)} errors)")
+                ctx.violation(f"`{name}` disagrees with validate(S, v)", rp)
+                break
     modelled = [c for c in cases if c.term is not None]
     bad = common.eval_cases(ctx.workdir, "c02", [c.term for c in modelled], "vcase", "verdict_case_ok")
     dist, kinds = vsuite.distribution(cases)
